@@ -95,7 +95,7 @@ Definition link_req (q : option req) (k : key) (a : akind) (flag : bool) (v : by
   | Some (RqDelete k' exp) =>
       k' = k /\ a = ADelete /\ flag = true /\ v = tombstone /\
       exists p, pred = Some (p, false) /\ (exp = 0 \/ exp = p)
-  | Some (RqRewrite k' prev) => k' = k /\ a = ARewrite /\ pred = Some (prev, flag)
+  | Some (RqRewrite k' prev) => k' = k /\ a = ARewrite /\ pred = Some (prev, flag) /\ flag = beqb v tombstone
   | None => False
   end.
 
@@ -171,7 +171,7 @@ Proof.
     destruct Rt as [exp0 [-> Hexp]]. simpl. repeat split; auto. exists exp. auto.
   - destruct e; try (apply KmSame; reflexivity).
     destruct (newest (k_vers (kv s k))) as [[r0 v0]|]; [|apply KmSame; reflexivity].
-    destruct (_ || _); apply KmSame; reflexivity.
+    destruct (negb _); apply KmSame; reflexivity.
   - (* PRwCommit *)
     destruct e; try (apply KmSame; reflexivity).
     destruct (idx_is (kv s k) (prev, beqb v tombstone)) eqn:Ei; [|apply KmSame; reflexivity].
